@@ -208,7 +208,11 @@ def effects(fa, rename=None, keep_calls=True, drop_guards=(), callsites=None):
             p = (k, r(e.base), e.attr, e.op, r(e.value))
         elif k == 'del':
             p = (k, r(e.base), r(e.key))
-        elif k in ('break', 'continue'):
+        elif k == 'continue':
+            # skipping the rest of an iteration has no effect of its own: what it cuts off shows in the path
+            # conditions of the effects after it (`if not x: continue; A` is `if x: A`)
+            continue
+        elif k == 'break':
             p = (k,)
         elif k == 'call' and e.stmt and keep_calls and not e.d.get('in_comp'):
             if _is_logging(e.f):
@@ -602,6 +606,29 @@ def _noop(p):
     return False
 
 
+def _int_test(a):
+    """(subject, op, constant) of an atom that compares one non-constant subject with an integer constant
+    (the operator read with the subject on the left), else None."""
+    if a[0] != 'cmp' or a[1] not in ('==', '!=', '<', '<='):
+        return None
+    x, y = a[2], a[3]
+    if T.is_int_const(y) and x[0] != 'c' and not isinstance(y[1], bool):
+        return x, a[1], y[1]
+    if T.is_int_const(x) and y[0] != 'c' and not isinstance(x[1], bool):
+        return y, {'==': '==', '!=': '!=', '<': '>', '<=': '>='}[a[1]], x[1]
+    return None
+
+
+def _lower_bound(subject):
+    """Smallest value an integer subject can take, when its form tells (len(...) >= 0, len(s.split(sep)) >= 1)."""
+    if subject[0] == 'call' and subject[1] == T.G('len') and len(subject[2]) == 1:
+        x = subject[2][0]
+        if x[0] == 'call' and x[1][0] == 'attr' and x[1][2] in ('split', 'rsplit') and len(x[2]) >= 1:
+            return 1
+        return 0
+    return None
+
+
 def _semantic_match(extra, remaining):
     """Remove from both lists the effects that agree once conditional expressions are lifted into
     path conditions: per payload, the number of active instances must be the same under every truth
@@ -645,10 +672,33 @@ def _semantic_match(extra, remaining):
                     if b[0] == 'call' and b[1] == T.G('isinstance') and len(b[2]) == 2 and b[2][0] == subj:
                         excl.append([(a, None), (b, None)])
         same = False
-        if len(atoms) <= 14:
+        # comparisons of one integer subject with integer constants are not independent tests: they are
+        # evaluated together, for every value of the subject around the constants involved (a length is
+        # >= 0, the number of pieces of str.split(sep) is >= 1)
+        intgrp = {}
+        for a in atoms:
+            sc = _int_test(a)
+            if sc is not None:
+                intgrp.setdefault(sc[0], []).append((a, sc[1], sc[2]))
+        intgrp = {k: v for k, v in intgrp.items() if len(v) > 1 or _lower_bound(k) is not None}
+        free = [a for a in atoms if not any(a == x[0] for v in intgrp.values() for x in v)]
+        subjects = sorted(intgrp, key=repr)
+        domains = []
+        for sj in subjects:
+            cs = [c for _, _, c in intgrp[sj]]
+            lo, hi = min(cs) - 1, max(cs) + 1
+            lb = _lower_bound(sj)
+            domains.append([v for v in range(lo, hi + 1) if lb is None or v >= lb] or [lb])
+        n_cases = 2 ** len(free)
+        for d in domains:
+            n_cases *= len(d)
+        if n_cases <= 2 ** 15:
             same = True
-            for bits in itertools.product((False, True), repeat=len(atoms)):
-                val = dict(zip(atoms, bits))
+            for bits in itertools.product(*([(False, True)] * len(free) + domains)):
+                val = dict(zip(free, bits[:len(free)]))
+                for sj, v in zip(subjects, bits[len(free):]):
+                    for a, op, c in intgrp[sj]:
+                        val[a] = {'==': v == c, '!=': v != c, '<': v < c, '<=': v <= c, '>': v > c, '>=': v >= c}[op]
                 if any(sum(1 for a, _ in grp if val[a]) > 1 for grp in excl):
                     continue
 
